@@ -15,6 +15,6 @@ for cd in C.REGISTRY[prop]:
     for u in r['undecided']: print("   UNDECIDED:", u)
     for n,o in r['obligations'].items():
         print("   %-28s %-14s vcs=%d %s %.2fs %s" % (n, o['status'], o['vcs'], o['backends'], o['solver_s'], (o['detail'] or '')))
-        if o['replay']: print("       replay:", {k:v for k,v in o['replay'].items() if k not in ('symbolic_traceback',)}); print(o['replay'].get('symbolic_traceback') or '')
+        if o['replay']: print("       replay:", str({k:v for k,v in o['replay'].items() if k in ('reproduced','inputs','how','observed','symbolic_exception')})[:700]); print((o['replay'].get('symbolic_traceback') or '')[-900:] if os.environ.get('TB') else '', end='')
     cc = C.crosscheck(cd, 20, 1)
-    print("   crosscheck:", {k:v for k,v in cc.items() if k!='failures'}, cc['failures'][:2])
+    print("   crosscheck:", {k:v for k,v in cc.items() if k!='failures'}, str(cc['failures'][:1])[:400])
